@@ -497,7 +497,7 @@ def exInst : InstMsg :=
 
 def exState : State :=
   { supply := 125, mint := some ⟨"minter", some 200⟩, balances := [("alice", 100), ("bob", 25)],
-    allow := [], allowSp := [], version := ⟨CONTRACT_NAME, 2, 0, 0⟩ }
+    allow := [], allowSp := [], version := ⟨CONTRACT_NAME, 2, 0, 0, none⟩ }
 
 def exBlk : Block := ⟨100, 5000⟩
 
